@@ -34,8 +34,8 @@ def draw(seed, pos):
     return 1 + (pos * 7919 + seed * 104729 + 17) % 999
 
 
-def mk_sig(ident, hashes):
-    mh = MinHash(0, 21, scaled=1)
+def mk_sig(ident, hashes, scaled=1):
+    mh = MinHash(0, 21, scaled=scaled)
     mh.add_many(hashes)
     return SourmashSignature(mh, name=str(ident))
 
@@ -78,6 +78,7 @@ def dump(t):
 class Ctx:
     def __init__(self):
         self.tree = None
+        self.scaled = 1
         self.dirs = []
         self.n = 0
 
@@ -87,10 +88,39 @@ class Ctx:
             shutil.rmtree(d, ignore_errors=True)
         self.dirs = []
 
+    def legacy(self, tmp, path, ver):
+        """rewrite the version-6 FS save into the version-1 / version-2 container: file names relative to
+        the index (inside the hidden directory), no factory/storage record, no metadata on internal nodes,
+        the root's filter file uncompressed (its header is parsed by extract_nodegraph_info);
+        version 1 is a plain list indexed by position"""
+        import gzip
+        info = json.load(open(path))
+        sub = info["storage"]["args"]["path"]
+        nodes = {}
+        for k, v in info["nodes"].items():
+            nodes[k] = {"name": v["name"], "filename": os.path.join(sub, v["filename"])}
+        for k, v in info["signatures"].items():
+            nodes[k] = {"name": v["name"], "metadata": v["metadata"], "filename": os.path.join(sub, v["filename"])}
+        if "0" in nodes:
+            rootf = os.path.join(tmp, nodes["0"]["filename"])
+            raw = open(rootf, "rb").read()
+            if raw[:2] == b"\x1f\x8b":
+                open(rootf, "wb").write(gzip.decompress(raw))
+        if ver == 2:
+            out = {"d": info["d"], "version": 2, "nodes": nodes}
+        else:
+            top = max(int(k) for k in nodes) if nodes else -1
+            out = [nodes.get(str(i)) for i in range(top + 1)]
+        with open(path, "w") as f:
+            json.dump(out, f)
+        return path
+
     def saveload(self, sp, seed, ver, cache):
         t = self.tree
         tmp = tempfile.mkdtemp(prefix="c13_", dir=TMP)
         self.dirs.append(tmp)
+        if ver == 1 and t.d != 2:
+            raise KeyError          # ill-formed op: the version-1 container has no `d`
         use_zip = (ver == 6 and seed % 2 == 0)
         path = os.path.join(tmp, "t.sbt.zip" if use_zip else "t.sbt.json")
         draws = [draw(seed, pos) / 1000.0 for pos in t._nodes]
@@ -101,7 +131,9 @@ class Ctx:
             t.save(path, sparseness=sp / 1000.0)
         finally:
             sbtmod.random = orig
-        if ver != 6:
+        if ver <= 2:
+            path = self.legacy(tmp, path, ver)
+        elif ver != 6:
             info = json.load(open(path))
             assert info["version"] == 6
             info["version"] = ver
@@ -142,9 +174,11 @@ def main():
                     out.write("#\n")
                     continue
                 if op == "new":
-                    d, bf, nt = map(int, a)
-                    if bf == 0:
+                    d, bf, nt = map(int, a[:3])
+                    sc = int(a[3]) if len(a) == 4 else 1
+                    if bf == 0 or sc == 0 or len(a) > 4:
                         raise KeyError
+                    ctx.scaled = sc
                     ctx.tree = SBT(GraphFactory(1, bf, nt), d=d)
                     res = "ok sizes=" + ",".join(str(x) for x in Nodegraph(1, bf, nt).hashsizes())
                 elif ctx.tree is None:
@@ -153,7 +187,7 @@ def main():
                     ident = int(a[0])
                     hs = [int(x) for x in a[1:]]
                     t = ctx.tree
-                    t.insert(mk_sig(ident, hs))
+                    t.insert(mk_sig(ident, hs, ctx.scaled))
                     pos = [p for p, l in t._leaves.items() if l.data.name == str(ident)]
                     res = f"ok n={len(t._leaves)} pos={pos[0] if pos else '-'}"
                 elif op == "dump":
@@ -167,7 +201,7 @@ def main():
                     res = "ok " + " ".join(f"{p}={t._nodes[p].data.matches(mh)}" for p in sorted(t._nodes))
                 elif op == "saveload":
                     sp, seed, ver, cache = map(int, a)
-                    if ver < 3 or ver > 6:
+                    if ver < 1 or ver > 6:
                         raise KeyError
                     ctx.saveload(sp, seed, ver, cache)
                     res = "ok"
@@ -175,9 +209,22 @@ def main():
                     c, thr = int(a[0]), int(a[1])
                     if c not in (0, 1):
                         raise KeyError
-                    q = mk_sig("q", [int(x) for x in a[2:]])
+                    q = mk_sig("q", [int(x) for x in a[2:]], ctx.scaled)
                     r = ctx.tree.search(q, threshold=thr / 1000.0, do_containment=bool(c))
                     res = "ok " + ",".join(str(x) for x in sorted(int(m.signature.name) for m in r))
+                elif op == "searchs":
+                    c, thr, sq = int(a[0]), int(a[1]), int(a[2])
+                    if c not in (0, 1, 2) or sq == 0:
+                        raise KeyError
+                    q = mk_sig("q", [int(x) for x in a[3:]], sq)
+                    r = ctx.tree.search(q, threshold=thr / 1000.0, do_containment=(c == 1), do_max_containment=(c == 2))
+                    res = "ok " + ",".join(str(x) for x in sorted(int(m.signature.name) for m in r))
+                elif op == "select":
+                    ks, sc, cont = map(int, a)
+                    if cont not in (0, 1):
+                        raise KeyError
+                    ctx.tree.select(ksize=ks, scaled=sc, containment=bool(cont))
+                    res = "ok"
                 elif op == "rebuild":
                     (p,) = map(int, a)
                     ctx.tree._rebuild_node(p)
